@@ -323,9 +323,10 @@ def check_helper(case, ctx):
     if noise > 1e-6:
         raise Skip("removal of a knot too close to the start of its supports is ill-conditioned")
     ctx.label("conditioning-widened-tolerance", noise > 1e-8)
-    cp2 = helpers.knot_removal(p, kv1, cp1, u, num=rr, s=s1, span=span1)
+    kv1_arg = tuple(kv1) if d.get("kv_tuple") else kv1          # the helpers document list or tuple
+    cp2 = helpers.knot_removal(p, kv1_arg, cp1, u, num=rr, s=s1, span=span1)
     kv1_keep = list(kv1)
-    kv2 = helpers.knot_removal_kv(kv1, span1, rr)
+    kv2 = list(helpers.knot_removal_kv(kv1_arg, span1, rr))
     ctx.label("helper-modified-its-knot-vector-argument", list(kv1) != kv1_keep)          # observed only: the property makes no claim about it
     kv1 = kv1_keep
     ctx.nt(rr >= 2, "removal-count>=2")
